@@ -1,15 +1,15 @@
 SPECIFICATION Spec
 CONSTANTS
-  N = 3
-  H = 2
-  Nodes <- Nodes3
-  Seat <- Seat3
+  N = 4
+  H = 3
+  Nodes <- Nodes4
+  Seat <- Seat4
   MaxRounds = 1
   MaxReqs = 1
   MaxDkgDeliver = 1
   MaxRelayDeliver = 1
   MaxBad = 0
-  MaxStops = 1
+  MaxStops = 0
   MaxViewMis = 1
   Prompt = TRUE
   Agreement = TRUE
